@@ -431,6 +431,89 @@ func discovery(rec *vr.Rec, rounds int, seed int64) {
 	}
 }
 
+// wildcardPairs: a udp server bound to the wildcard address is reached by ONE remote socket on two
+// different local addresses (127.0.0.1 and 127.0.0.2): these are two (remote, local) pairs, hence
+// two logical connections with separate de-duplication state, even when the peer reuses a message ID.
+func wildcardPairs(rec *vr.Rec, rounds int) {
+	for round := 0; round < rounds; round++ {
+		l, err := coapNet.NewListenUDP("udp4", "0.0.0.0:0")
+		if err != nil {
+			rec.Inconclusive("listen wildcard: " + err.Error())
+			return
+		}
+		var newConns atomic.Int64
+		var mu sync.Mutex
+		locals := map[string]map[string]bool{} // conn identity -> local addresses
+		r := mux.NewRouter()
+		r.DefaultHandle(mux.HandlerFunc(func(w mux.ResponseWriter, m *mux.Message) {
+			path, _ := m.Options().Path()
+			mu.Lock()
+			id := fmt.Sprintf("%p", w.Conn())
+			if locals[id] == nil {
+				locals[id] = map[string]bool{}
+			}
+			if uc, ok := w.Conn().(*udpclient.Conn); ok {
+				locals[id][uc.LocalAddr().String()] = true
+			}
+			mu.Unlock()
+			_ = w.SetResponse(codes.Content, message.TextPlain, bytes.NewReader([]byte("body-of-"+path)))
+		}))
+		srv := udp.NewServer(options.WithMux(r), options.WithOnNewConn(func(cc *udpclient.Conn) { newConns.Add(1) }))
+		served := make(chan error, 1)
+		go func() { served <- srv.Serve(l) }()
+		port := l.LocalAddr().(*net.UDPAddr).Port
+		c, err := net.ListenUDP("udp4", &net.UDPAddr{IP: net.IPv4zero})
+		if err != nil {
+			srv.Stop()
+			<-served
+			continue
+		}
+		mid := uint16(0x1200 + round)
+		dsts := []net.IP{net.IPv4(127, 0, 0, 1), net.IPv4(127, 0, 0, 2), net.IPv4(127, 0, 0, 3)}[:2+round%2]
+		okAll := true
+		for i, ip := range dsts {
+			path := fmt.Sprintf("p%d", i)
+			// the same message ID on every pair (legal: IDs are scoped to the endpoint pair)
+			req := ref.Msg{Type: 0, Code: 1, MID: mid, Token: []byte{byte(i + 1)}, Opts: []ref.Opt{{ID: 11, Val: []byte(path)}}}
+			_, _ = c.WriteToUDP(ref.EncodeUDP(req), &net.UDPAddr{IP: ip, Port: port})
+			buf := make([]byte, 1500)
+			_ = c.SetReadDeadline(time.Now().Add(5 * time.Second))
+			n, from, err := c.ReadFromUDP(buf)
+			if err != nil {
+				rec.Inconclusive("wildcard: no answer from " + ip.String() + ": " + err.Error())
+				okAll = false
+				break
+			}
+			resp, perr := ref.ParseUDP(buf[:n])
+			if perr != nil || string(resp.Payload) != "body-of-/"+path || !bytes.Equal(resp.Token, req.Token) {
+				rec.Violation("C10/udp/wildcard/foreign-response", fmt.Sprintf("request %q sent to %s (same remote socket, same message ID as the request to %s) was answered with token %x body %q", path, ip, dsts[0], resp.Token, resp.Payload), nil)
+				okAll = false
+				break
+			}
+			if !from.IP.Equal(ip) {
+				rec.Violation("C10/udp/wildcard/answer-from-wrong-local-address", fmt.Sprintf("sent to %s, answered from %s", ip, from.IP), nil)
+			}
+		}
+		rec.Eval(fmt.Sprintf("wildcard|%d", len(dsts)))
+		rec.Count("wildcard_pair_rounds", 1)
+		if okAll {
+			if int(newConns.Load()) != len(dsts) {
+				rec.Violation("C10/udp/wildcard/connections-per-pair", fmt.Sprintf("one remote socket reached %d local addresses of a wildcard-bound server; %d logical connections were created", len(dsts), newConns.Load()), nil)
+			}
+			mu.Lock()
+			for id, ls := range locals {
+				if len(ls) != 1 {
+					rec.Violation("C10/udp/wildcard/one-connection-for-several-local-addresses", fmt.Sprintf("connection %s handled requests for %d local addresses", id, len(ls)), nil)
+				}
+			}
+			mu.Unlock()
+		}
+		_ = c.Close()
+		srv.Stop()
+		<-served
+	}
+}
+
 func TestRun(t *testing.T) {
 	rec := vr.New("C10", "per transport (udp, dtls-PSK, tcp, tls over loopback): 4..8 well-behaved sequential clients (each request carries client id + sequence, echoed) concurrent with 2..6 adversarial peers following PRNG programs (random bytes, truncated valid messages, oversize messages, unsolicited ACK/RST, responses with unknown tokens, stray block-wise fragments, DTLS/TLS-looking garbage records, connect-and-stall, oversize stream headers, abrupt close mid-message, signalling frames); unicast discovery with 0..3 responders answering from their own sockets plus a foreign-token response and a late response. Distinct = distinct (transport, clients, adversaries, seed) tuples.")
 	defer rec.Flush(true)
@@ -458,6 +541,7 @@ func TestRun(t *testing.T) {
 	}
 	wg.Wait()
 	discovery(rec, vr.Scale(12, 200), seed)
+	wildcardPairs(rec, vr.Scale(6, 100))
 	rec.Assume("safety verdicts only: throughput is reported, not judged; the liveness probe is bounded progress (a new client is served within 15 s after the adversaries stopped)")
 	rec.Assume("multicast is not routable in this sandbox: discovery is exercised with unicast targets and responders answering from other sockets")
 	_ = strings.Contains
